@@ -333,7 +333,38 @@ def sort_attrs(t):
 
 
 def obj_case(o):
-    return {'type': type(o).__name__, 'repr': repr(o)[:1500]}
+    """replayable description of a generated object: repr for the reader, pickle (pywbem classes only) for replay"""
+    import base64
+    import pickle
+    try:
+        pk = base64.b64encode(pickle.dumps(o, protocol=4)).decode('ascii')
+    except Exception:  # noqa
+        pk = None
+    return {'type': type(o).__name__, 'repr': repr(o)[:1500], 'pickle': pk}
+
+
+def oracle_path_options(run, o, ih, ins, case):
+    """tocimxml(ignore_host, ignore_namespace) of a path: what arrives is the same path without host / namespace at
+    the TOP level; reference keybindings inside keep theirs (at every depth)"""
+    want_obj = o.copy()
+    if ins:
+        want_obj.namespace = None
+    if ih or ins:
+        want_obj.host = None
+    try:
+        xml0 = o.tocimxml(ih, ins).toxml()
+        tt, r1 = real_parse(xml0)
+    except Exception as e:
+        run.violate({'kind': 'path_options_raise', 'exc': type(e).__name__, 'ih': ih, 'ins': ins}, case, {'exc': repr(e)[:300]})
+        return
+    want = canon(with_defaults(cimproto.obj_to_json(want_obj, cimproto.Tables())))
+    got = canon(with_defaults(cimproto.obj_to_json(r1, cimproto.Tables())))
+    d = diff(want, got)
+    if d and 'string_with_CR' in features(o) and diff(norm_eol(want), got) is None:
+        d = None        # the known end-of-line normalisation (reported by the main oracle)
+    if d:
+        run.violate({'kind': 'path_options_change_more_than_top_level', 'ih': ih, 'ins': ins}, case,
+                    {'xml': xml0, 'path': d[0], 'sent': d[1], 'received': d[2]})
 
 
 def run(run):
@@ -389,6 +420,15 @@ def run(run):
             realtree = None
         reqs.append({'op': 'par', 's': cimproto.cps(doc)})
         meta.append(('par', o, realtree))
+        # options of tocimxml() on paths (ignore_host / ignore_namespace): model encPathOpt, byte for byte
+        if isinstance(o, (pywbem.CIMInstanceName, pywbem.CIMClassName)):
+            for ih, ins in ((True, False), (False, True), (True, True)):
+                try:
+                    xo = o.tocimxml(ih, ins).toxml()
+                except Exception as e:
+                    xo = 'EXC:' + type(e).__name__
+                reqs.append({'op': 'encp', 'obj': j, 'ih': ih, 'ins': ins, 'codec': T.to_json()})
+                meta.append(('encp', o, (xo, ih, ins)))
     # text layer: strings from the generator + systematic single/double characters
     g = cimgen.Gen(run.rng, allow_cr=True)
     texts = [g.string(30) for _ in range(400 if not run.thorough else 5000)]
@@ -411,6 +451,14 @@ def run(run):
             seen.add(real)
             if m != real:
                 run.disagree(obj_case(o), m[:2000], real[:2000], 'encoder: ser(encode o) vs tocimxml().toxml()')
+        elif kind == 'encp':
+            run.evaluations += 1
+            xo, ih, ins = real
+            run.count('encp:ih=%s,ins=%s' % (ih, ins))
+            m = ''.join(chr(c) for c in ans.get('xml', []))
+            if m != xo:
+                run.disagree(dict(obj_case(o), ignore_host=ih, ignore_namespace=ins), m[:2000], xo[:2000],
+                             'encoder options: ser(encPathOpt ih ins p) vs tocimxml(ih, ins).toxml()')
         elif kind == 'dec':
             run.evaluations += 1
             run.count('dec:' + ('ok' if 'ok' in real else real['exc']))
@@ -452,6 +500,9 @@ def run(run):
     # oracle on the real code
     for o in objs:
         oracle(run, o, obj_case(o))
+        if isinstance(o, (pywbem.CIMInstanceName, pywbem.CIMClassName)):
+            for ih, ins in ((True, False), (False, True), (True, True)):
+                oracle_path_options(run, o, ih, ins, dict(obj_case(o), ignore_host=ih, ignore_namespace=ins))
     # the same oracle with pywbem's second escaping mode (module switch _cim_xml._CDATA_ESCAPING): CDATA sections,
     # ']]>' splitting, nesting through embedded objects.  Oracle and element-syntax parser only (the encoder model
     # mirrors the default mode).
@@ -523,7 +574,12 @@ def replay(payload):
     ns['inf'] = float('inf')
     ns['nan'] = float('nan')
     try:
-        o = eval(payload['case']['repr'], ns)  # noqa
+        if payload['case'].get('pickle'):
+            import base64
+            import pickle
+            o = pickle.loads(base64.b64decode(payload['case']['pickle']))
+        else:
+            o = eval(payload['case']['repr'], ns)  # noqa
     except Exception as e:
         return False, 'cannot rebuild the object from its repr (%r); recorded observation: %s' % (
             e, json.dumps(payload.get('observed'))[:1500])
@@ -533,6 +589,8 @@ def replay(payload):
     try:
         _cim_xml._CDATA_ESCAPING = bool(payload['case'].get('cdata_mode'))
         oracle(r, o, payload['case'])
+        if 'ignore_host' in payload['case']:
+            oracle_path_options(r, o, payload['case']['ignore_host'], payload['case']['ignore_namespace'], payload['case'])
     finally:
         _cim_xml._CDATA_ESCAPING = saved
     if r.violations:
